@@ -12,7 +12,16 @@
 //
 // Every observation point is a block of <i data-m="FILE.POS:NAME" data-t="{{ NAME | type }}">
 // {{ NAME | json }}</i> elements, one per name; blocks stand at the start of every file and after
-// every include. The expected block sequence is the model's walk of the include tree.
+// every include. The expected block sequence is the model's walk of the include tree. A name the
+// model says is not visible must print exactly like the never-defined control name u0 of the same
+// block (how an undefined name prints is not asserted).
+//
+// Deliberately not asserted (unspecified): a :required name that only the includer's scope
+// provides; partial output of a failed render; the wording of errors beyond "contains a missing
+// name"; the Go type of values read from YAML front-matter; static values starting with { or [
+// (documented JSON auto-decoding), containers / whole floats inside "{{ }}" attribute
+// interpolation and bound paths that do not resolve (never generated; a replayed case containing
+// them is only checked for shorthand == explicit).
 package c05
 
 import (
@@ -338,17 +347,17 @@ type expMarker struct {
 }
 
 type stats struct {
-	instances, maxDepth, maxFan         int
-	modes                               map[string]int
-	boundKinds                          map[string]int
-	collPropIncluder, collPropFM        int
-	collFMIncluder, collAll3            int
-	sameCompMulti                       bool
-	reqProp, reqFM, reqScope, reqMiss   int
-	reqCSV, reqRepeated, reqBothKeys    bool
-	falsyBound, nestedInc               int
-	wrap, nowrap, leakWatch, passThru   int
-	omitted                             int
+	instances, maxDepth, maxFan       int
+	modes                             map[string]int
+	boundKinds                        map[string]int
+	collPropIncluder, collPropFM      int
+	collFMIncluder, collAll3          int
+	sameCompMulti                     bool
+	reqProp, reqFM, reqScope, reqMiss int
+	reqCSV, reqRepeated, reqBothKeys  bool
+	falsyBound, nestedInc             int
+	wrap, nowrap, leakWatch, passThru int
+	omitted                           int
 }
 
 type result struct {
@@ -1136,10 +1145,10 @@ var propModes = []string{"omit", "static", "interp", "bind", "vbind"}
 // enumFlat: one component, two names; per name every combination of
 // {omitted, static, interpolated, :bound, v-bind:bound} x {in front-matter or not} x
 // {includer has the name or not} x {required or not}.
-func enumFlat(yield func(Case) bool) int {
-	names := []string{"va1", "vb2"}
+func enumFlat(nNames int, yield func(Case) bool) (done, total int) {
+	names := universe[:nNames]
 	per := len(propModes) * 2 * 2 * 2
-	total := 1
+	total = 1
 	for range names {
 		total *= per
 	}
@@ -1177,22 +1186,25 @@ func enumFlat(yield func(Case) bool) int {
 				inc.Props = append(inc.Props, Prop{Name: n, Mode: "vbind", Path: "d0"})
 			}
 		}
+		keys := []string{":required", ":require"}
 		switch {
-		case len(req) == 2 && x%3 == 0:
-			c.Comps[0].Req = []Req{{":required", req[0] + ", " + req[1]}}
-		case len(req) == 2 && x%3 == 1:
-			c.Comps[0].Req = []Req{{":require", req[0]}, {":require", req[1]}}
-		case len(req) == 2:
-			c.Comps[0].Req = []Req{{":required", req[1]}, {":require", req[0]}}
 		case len(req) == 1:
-			c.Comps[0].Req = []Req{{[]string{":required", ":require"}[x%2], req[0]}}
+			c.Comps[0].Req = []Req{{keys[x%2], req[0]}}
+		case len(req) > 1 && x%3 == 0: // one CSV attribute
+			c.Comps[0].Req = []Req{{":required", strings.Join(req, ", ")}}
+		case len(req) > 1 && x%3 == 1: // the same attribute repeated, one name each
+			for _, r := range req {
+				c.Comps[0].Req = append(c.Comps[0].Req, Req{":require", r})
+			}
+		case len(req) > 1: // both spellings, last name first
+			c.Comps[0].Req = []Req{{":required", req[len(req)-1]}, {":require", strings.Join(req[:len(req)-1], ",")}}
 		}
 		c.Page = []Inc{inc}
 		if !yield(c) {
-			return x
+			return x, total
 		}
 	}
-	return total
+	return total, total
 }
 
 // enumTwice: the same component included twice with every pair of prop-mode assignments for two
@@ -1379,8 +1391,8 @@ func TestProp(t *testing.T) {
 		}
 	}
 	full := true
-	n1 := enumFlat(each("enum-flat"))
-	full = full && n1 == 1600
+	n1, t1 := enumFlat(run.Pick(2, 3), each("enum-flat"))
+	full = full && n1 == t1
 	n2 := enumTwice(each("enum-twice"))
 	full = full && n2 == 2500
 	n3 := enumChain(each("enum-chain"))
@@ -1396,7 +1408,7 @@ func TestProp(t *testing.T) {
 		}
 	}
 	if full && !rec.Failed() {
-		rec.Exhaustive(fmt.Sprintf("flat: 2 names x {5 prop modes x front-matter x includer x required} (%d); twice: same component twice, 5^4 prop modes x front-matter x includer (%d); chain: depth-3 chain, one name, 10 states per level x includer x leaf required (%d); types: 17 values x 4 modes x 4 collisions (%d)", n1, n2, n3, n4))
+		rec.Exhaustive(fmt.Sprintf("flat: %d names x {5 prop modes x front-matter x includer x required} (%d); twice: same component twice, 5^4 prop modes x front-matter x includer (%d); chain: depth-3 chain, one name, 10 states per level x includer x leaf required (%d); types: 17 values x 4 modes x 4 collisions (%d)", run.Pick(2, 3), n1, n2, n3, n4))
 	}
 
 	run.Rapid(t, rec, "random", genCase(rec, known), classify, check)
